@@ -109,13 +109,22 @@ def run_case(kind, inner_name, sc, seed, aperf_kind, ret_u):
     n_rows, na = conc["n_rows"], conc["na"]
     adaptive = False
     pref = int(sc["pref"])
+    prefs = []
     kw = {}
     if kind == "wrapper":
         e = ENTRIES[inner_name]
         inner = e.make(seed, np.nan, (0, 1))
         qs = SingleAnnotatorWrapper(inner, random_state=seed)
         kw.update(zoo.model_kwargs(e, np.nan, (0, 1), seed=seed))
-        kw["n_annotators_per_sample"] = pref
+        # one third of the calls pass the request as an array (entry k for the k-th ranked sample, the last
+        # entry for all further ones)
+        if rng.rand() < 0.34:
+            prefs = [int(v) for v in rng.randint(1, na + 1, size=int(rng.randint(1, 4)))]
+            pref = prefs[0]
+            kw["n_annotators_per_sample"] = np.array(prefs)
+        else:
+            prefs = []
+            kw["n_annotators_per_sample"] = pref
         kw["batch_size"] = int(sc["bs"])
         n_cand = len(conc["candidates"]) if conc["candidates"] is not None else sc["ns"]
         if aperf_kind == "annot":
@@ -153,11 +162,12 @@ def run_case(kind, inner_name, sc, seed, aperf_kind, ret_u):
     except Exception as ex:
         events = [{"ev": "Validate"}, {"ev": "Raised", "exc": "%s: %s" % (type(ex).__name__, str(ex)[:160])}]
     name = "SingleAnnotatorWrapper(%s)" % inner_name if kind == "wrapper" else "IntervalEstimationThreshold"
-    return {"id": "%s/%s-%s/ns%d-na%d/bs%s/pref%d/aperf=%s/seed%d" % (
-        name, sc["cmode"], sc["amode"], sc["ns"], sc["na"], kw.get("batch_size"), pref, aperf_kind, seed),
-        "ns": n_rows, "na": na, "avail": conc["avail"], "bs": bs, "pref": pref, "adaptive": adaptive,
+    return {"id": "%s/%s-%s/ns%d-na%d/bs%s/pref%s/aperf=%s/seed%d" % (
+        name, sc["cmode"], sc["amode"], sc["ns"], sc["na"], kw.get("batch_size"), prefs or pref, aperf_kind, seed),
+        "ns": n_rows, "na": na, "avail": conc["avail"], "bs": bs, "pref": pref, "prefs": prefs, "adaptive": adaptive,
         "events": events,
         "concrete": {"strategy": name, "scenario": sc, "seed": seed, "A_perf": aperf_kind, "return_utilities": ret_u,
+                     "n_annotators_per_sample": prefs or pref,
                      "X": conc["X"].tolist(), "y": [["nan" if v != v else v for v in r] for r in conc["y"].tolist()],
                      "candidates": cand if not isinstance(cand, np.ndarray) else cand.tolist(),
                      "annotators": ann if not isinstance(ann, np.ndarray) else ann.tolist(),
@@ -204,7 +214,16 @@ def main(tier="quick", seed=0):
     chk.notes.append("deviation RankAny=TRUE violates Termination (expected)")
     scenarios = chk.generate("MultiAnnotGen", "MultiAnnotGen.cfg", extra=("-seed", str(seed + 1)))
     scenarios = [s for s in scenarios if n_avail(s) >= 1]
+    # larger pools (4-5 samples): an array of per-sample requests shorter than the number of ranked samples
+    big = [s for s in chk.generate("MultiAnnotGen", "MultiAnnotGen5.cfg", extra=("-seed", str(seed + 2)))
+           if s["ns"] >= 4 and n_avail(s) >= 1]
     jobs = []
+    for n_, i in enumerate(rng.choice(len(big), size=min(500 if quick else 6000, len(big)), replace=False)):
+        sc = big[int(i)]
+        inner = INNER[n_ % len(INNER)]
+        if sc["cmode"] == "rows" and not ENTRIES[inner].rows:
+            inner = "RandomSampling"
+        jobs.append(("wrapper", inner, sc, int(rng.integers(0, 1000)), ("none", "annot", "pair")[n_ % 3], bool(n_ % 2)))
     n_wr = 1500 if quick else 20000
     for n_, i in enumerate(rng.choice(len(scenarios), size=min(n_wr, len(scenarios)), replace=False)):
         sc = scenarios[int(i)]
@@ -221,7 +240,7 @@ def main(tier="quick", seed=0):
             chk.case((t["id"].rsplit("/", 1)[0], tuple(map(tuple, t["avail"]))))
     chk.sample({"trace": {k: v for k, v in traces[0].items() if k != "concrete"}})
     chk.sample({"call": traces[0]["concrete"]})
-    chk.rule = ("scenarios from MultiAnnotGen (2-3 samples x 2-3 annotators, TLC-drawn label-missing patterns and "
+    chk.rule = ("scenarios from MultiAnnotGen (2-3 and 4-5 samples x 2-3 annotators, TLC-drawn label-missing patterns and "
                 "availability matrices, 3 candidate modes x 3 annotator modes, batch sizes {1,2,3,5,10}, "
                 "n_annotators_per_sample 1..n_annotators), executed on SingleAnnotatorWrapper around %d inner "
                 "strategies with A_perf None/per-annotator/per-pair and on IntervalEstimationThreshold (batch size 10 "
